@@ -272,7 +272,7 @@ func c19Concrete(r *Run, c *c19env) {
 			})
 			docs++
 			if msg != "" || gotS != wantP {
-				pth := filepath.Join(r.Verif, "replays", "C19", fmt.Sprintf("doc_%s_%d.json", sanitizePath(nm), v))
+				pth := filepath.Join(r.outDir(), "replays", "C19", fmt.Sprintf("doc_%s_%d.json", sanitizePath(nm), v))
 				os.MkdirAll(filepath.Dir(pth), 0o755)
 				os.WriteFile(pth, text, 0o644)
 				viol("document reading: position faithfulness", fmt.Sprintf("%s (variant %d): reading the document with the real functions does not give the document's values at their positions: %s", nm, v, short(firstDiff(gotS, wantP)+msg, 240)), map[string]any{"kind": "document", "file": pth})
@@ -494,7 +494,7 @@ func c19Corruptions(r *Run, path string) int {
 				how = "refused at witness construction"
 			}
 			if !refused {
-				pth := filepath.Join(r.Verif, "replays", "C19", fmt.Sprintf("corrupt_%s_%s.json", sanitizePath(e.where), sanitizePath(bad.n)))
+				pth := filepath.Join(r.outDir(), "replays", "C19", fmt.Sprintf("corrupt_%s_%s.json", sanitizePath(e.where), sanitizePath(bad.n)))
 				os.MkdirAll(filepath.Dir(pth), 0o755)
 				os.WriteFile(pth, text, 0o644)
 				r.addViolationWithReplay("malformed value accepted: "+bad.n, fmt.Sprintf("a document whose %s is a %s is read, deserialised and turned into a witness without refusal (the value is replaced by something else)", e.where, bad.n), map[string]any{"kind": "document", "file": pth, "expect": "refused"}, "real reading functions and gnark witness construction accept the corrupted document")
